@@ -318,6 +318,9 @@ def apply_op(mab, o, label, inv, case):
                 # integer-typed training contexts (count features): same values, another dtype of the stored history
                 if cx is not None and case.get("int_ctx") and cx.size and np.all(cx == np.round(cx)):
                     cx = cx.astype(np.int64)
+                # integer-typed rewards (counts) where all of them are integral
+                if case.get("int_rs") and rs.size and np.all(rs == np.round(rs)):
+                    rs = rs.astype(np.int64)
             (mab.fit if k == "fit" else mab.partial_fit)(ds, rs, cx)
             return ("done",)
         if k == "add":
